@@ -5,6 +5,7 @@ Line protocol for C07 (see harness/c07/main.go):
   (seq|strict) n <N> m <M> cap <C> ops <op>*           model + holds
   adp n <N> m <M> cap <C> ops <op>*                    the same ops through the adapter's read loops (runAdp, holdsAdp)
   par n <N> m <M> cap <C> ops <op>* (th <op>*)+         holds only (concurrent block, no model line)
+  race n <N> m <M> cap <C> ops <op>* th <op>* th <op>*  holds only: block 1 parked inside UpdateAuth, then block 2 (holdsRace)
   op: A c | H c x t | Q c t | F c | HS c x t | QS c t | K x c | S | O c | B c | X c | R c | U c | T c | P c
       | XF c | RF c | SF | BF c   (X/R/S/B while the cloud-control store fails)
       | G c x   RegisterControlConnection of a new object for c (x = 0 unauthenticated, x > 0 pre-authenticated)
@@ -224,6 +225,10 @@ def runHolds (caseToks obsToks : List String) : String :=
       if c.kind == "seq" && c.threads.isEmpty then boolStr (holdsF c.n c.m c.cap c.fpre false o)
       else if c.kind == "strict" && c.threads.isEmpty then boolStr (holdsF c.n c.m c.cap c.fpre true o)
       else if c.kind == "adp" && c.threads.isEmpty then boolStr (holdsAdp c.n c.m c.cap c.fpre o)
+      else if c.kind == "race" then
+        match c.threads with
+        | [a, b] => boolStr (holdsRace c.n c.m c.cap c.pre a b o)
+        | _ => "bad-case"
       else if c.kind == "par" then boolStr (holdsPar c.n c.m (c.pre ++ c.threads.flatten) o)
       else "bad-case"
   | none => "bad-case"
